@@ -6,6 +6,25 @@ PENDING = "check not built yet in this round (specification and driver in progre
 
 # id -> (level text, level note, technique, design ref)
 BUILT = {
+ "C11": ("Retro.tla states conservation (generators keep every experiment, smoothers keep a sub-collection, nothing invented, "
+         "altered or duplicated), pass-through of the observed part and the hold-out partition with ceil(fraction*size) per "
+         "unobserved plate as relations between input and output screens; TLC explores generative transcriptions of two "
+         "operations on all small screens; every shipped generator, smoother, the cover, the combination filter and both "
+         "hold-outs are run on TLC-explored and seeded random screens (duplicates, single-agent and all-control rows, observed "
+         "plates) with several generator seeds and each (input, parameters, output) is decided by TraceRetro(Focus=C11); the "
+         "hold-out is additionally explored inside Lifecycle.tla (HoldoutPartition).",
+         "operations that raise are outside 'whenever they return' (counted in evidence); experiment identity = names, doses, value bits.",
+         "TLA+ relational specification + TLC on generative transcriptions; code->spec trace validation of real calls",
+         "5/C11"),
+ "C13": ("Same module, Focus=C13: one sample per generated plate, at most max per plate and exactly ceil(count/max) plates with "
+         "array_split sizes, sparse cover (every sample and treatment observed, rest in one plate, singles revealed), exact "
+         "combination filter, common / optimal plate size (retains most), no starved sample and qualifying samples kept, "
+         "merges only whole same-sample plates, min-merge stops exactly, top-bottom halves rounding up; TLC finds the "
+         "design-level counterexamples of the two defects repaired in /repo when their pinned transcriptions are enabled "
+         "(BugSeg / BugNPL).",
+         "as C11.",
+         "TLA+ relational specification + TLC on generative transcriptions; code->spec trace validation of real calls",
+         "5/C13"),
  "C10": ("ThetaStore.tla: holders [declared size, items] under add / get / save / load / concat with their refusals (full, out of "
          "range incl. negative, empty), three handles so that operands of concat stay observable, and the chain pipeline "
          "(per-chain files of sizes crossing 10/11/12, any file order, evaluation labelling columns from per-file sizes); TLC "
